@@ -31,6 +31,7 @@ type CK struct {
 	K2 int64 `gorm:"primaryKey;autoIncrement:false"`
 	A  int64
 	B  int64
+	U  int64 `gorm:"uniqueIndex"` // a unique column that is not the key
 }
 
 func (CK) TableName() string { return "cks" }
@@ -46,6 +47,7 @@ type Op struct {
 	Asg  int64  `json:"asg"`
 	K1   int64  `json:"k1"`
 	K2   int64  `json:"k2"`
+	U    int64  `json:"u"`
 	// rendering attributes (no meaning in the reference)
 	Sess  []int  `json:"sess"`  // positions (0..) in the chain after which a clone call is inserted
 	How   string `json:"how"`   // session | withctx
@@ -72,7 +74,7 @@ func newEnv() (*env, error) {
 func (e *env) seed() error {
 	for _, q := range []string{"DELETE FROM cvs", "DELETE FROM sqlite_sequence",
 		"INSERT INTO cvs(id,a,b,deleted_at) VALUES (1,1,1,NULL),(2,2,2,'2020-01-01 00:00:00')",
-		"DELETE FROM cks", "INSERT INTO cks(k1,k2,a,b) VALUES (1,1,1,1),(2,1,2,2)"} {
+		"DELETE FROM cks", "INSERT INTO cks(k1,k2,a,b,u) VALUES (1,1,1,1,11),(2,1,2,2,21)"} {
 		if _, err := e.sql.Exec(q); err != nil {
 			return err
 		}
@@ -99,18 +101,18 @@ func (e *env) table() ([]hx.M, error) {
 }
 
 func (e *env) ctable() ([]hx.M, error) {
-	rows, err := e.sql.Query("SELECT k1,k2,a,b FROM cks ORDER BY k1,k2")
+	rows, err := e.sql.Query("SELECT k1,k2,a,b,u FROM cks ORDER BY k1,k2")
 	if err != nil {
 		return nil, err
 	}
 	defer rows.Close()
 	out := []hx.M{}
 	for rows.Next() {
-		var k1, k2, a, b int64
-		if err := rows.Scan(&k1, &k2, &a, &b); err != nil {
+		var k1, k2, a, b, u int64
+		if err := rows.Scan(&k1, &k2, &a, &b, &u); err != nil {
 			return nil, err
 		}
-		out = append(out, hx.M{"k1": k1, "k2": k2, "a": a, "b": b})
+		out = append(out, hx.M{"k1": k1, "k2": k2, "a": a, "b": b, "u": u})
 	}
 	return out, rows.Err()
 }
@@ -133,8 +135,14 @@ func (e *env) do(o Op) (ret CV, err error) {
 		v := CV{ID: o.ID, A: o.A, B: o.B}
 		fin = func(tx *gorm.DB) *gorm.DB { r := tx.Save(&v); ret = v; return r }
 	case "savec":
-		v := CK{K1: o.K1, K2: o.K2, A: o.A, B: o.B}
+		v := CK{K1: o.K1, K2: o.K2, A: o.A, B: o.B, U: 10*o.K1 + o.K2}
 		fin = func(tx *gorm.DB) *gorm.DB { r := tx.Save(&v); ret = CV{A: v.A, B: v.B}; return r }
+	case "upsertu":
+		v := CK{K1: o.K1, K2: o.K2, A: o.A, B: o.B, U: o.U}
+		steps = append(steps, func(tx *gorm.DB) *gorm.DB {
+			return tx.Clauses(clause.OnConflict{Columns: []clause.Column{{Name: "u"}}, UpdateAll: true})
+		})
+		fin = func(tx *gorm.DB) *gorm.DB { r := tx.Create(&v); ret = CV{A: o.A, B: o.B}; return r }
 	case "upsert":
 		v := CV{ID: o.ID, A: o.A, B: o.B}
 		var oc clause.OnConflict
@@ -238,7 +246,7 @@ func (e *env) run(caseNo int, ops []Op) (hx.M, error) {
 		if err != nil {
 			es = err.Error()
 		}
-		out = append(out, hx.M{"op": o.Op, "id": o.ID, "a": o.A, "b": o.B, "rule": o.Rule, "ca": o.CA, "attr": o.Attr, "asg": o.Asg, "k1": o.K1, "k2": o.K2,
+		out = append(out, hx.M{"op": o.Op, "id": o.ID, "a": o.A, "b": o.B, "rule": o.Rule, "ca": o.CA, "attr": o.Attr, "asg": o.Asg, "k1": o.K1, "k2": o.K2, "u": o.U,
 			"sess": nzI(o.Sess), "how": o.How, "forms": o.Forms,
 			"obs": hx.M{"table": t, "ctable": ct, "ret": hx.M{"id": ret.ID, "a": ret.A, "b": ret.B}, "err": es}})
 	}
@@ -351,6 +359,7 @@ func random(args []string) error {
 	for i := 0; i < *n; i++ {
 		var ops []Op
 		zeroSaved := map[int64]bool{}
+		nup := 0
 		for k := 0; k < 1+r.Intn(5); k++ {
 			o := Op{How: []string{"session", "withctx"}[r.Intn(2)], Forms: string([]byte{"smci"[r.Intn(4)], "smk"[r.Intn(3)], "smk"[r.Intn(3)]})}
 			for p := 0; p <= 3; p++ {
@@ -358,7 +367,11 @@ func random(args []string) error {
 					o.Sess = append(o.Sess, p)
 				}
 			}
-			switch r.Intn(5) {
+			switch r.Intn(6) {
+			case 5:
+				nup++
+				o.Op, o.K1, o.K2, o.A, o.B = "upsertu", 5, int64(nup), int64(1+r.Intn(3)), int64(r.Intn(4))
+				o.U = []int64{11, 21, 99, 98}[r.Intn(4)]
 			case 4:
 				o.Op, o.K1, o.K2, o.A, o.B = "savec", int64(1+r.Intn(3)), int64(r.Intn(3)), int64(1+r.Intn(3)), int64(r.Intn(4))
 				if o.K2 == 0 && zeroSaved[o.K1] {
